@@ -205,6 +205,23 @@ def pileup_world(kind, param, annotated):
             add([[start0 + 1 + (i % 100), start0 + 600 + (i % 100)]])
         for i in range(param):
             add([[last_end - 60 + i, last_end - 10 + i]])
+    elif kind == "bridge-lowq":
+        # the bridge world with reads of MAPQ 3 that carry TA's exons and one more exon in front of GB: inconsistent with TA and below
+        # --inconsistent_mapq_cutoff (5), i.e. filtered by the documented rule. One such read: the cluster is cut between the genes and
+        # the read is processed in both sub-regions; three: the valley is not a valley any more, no cut
+        ea = [[5001, 5300], [6001, 6300], [7001, 7300]]
+        eb = [[60001, 60300], [61001, 61300], [62001, 62300]]
+        w["genes"] = [{"id": "GA", "chr": "chr1", "strand": "+", "transcripts": [{"id": "TA", "exons": ea}]},
+                      {"id": "GB", "chr": "chr1", "strand": "+", "transcripts": [{"id": "TB", "exons": eb}]}]
+        w["sites"] = []
+        syn.plant_for_transcripts(w)
+        W.add_sites_for_blocks(w, "chr1", ea + [[50001, 50300]], "+")
+        W.dedup_sites(w)
+        for i in range(30):
+            add(ea)
+            add(eb)
+        for i in range(param):
+            reads.append(W.read_of("lowq%d" % i, "chr1", ea + [[50001, 50300]], polya=False, mapq=3))
     elif kind == "bridge":
         # two genes 50 kb apart with 30 reads each and ONE read that carries the exons of both: the 57-kb cluster is cut at the coverage
         # valley between the genes, the bridging read is processed in both sub-regions (inconsistent with a different gene in each)
@@ -235,7 +252,7 @@ def expected_reads(w, annotated):
        secondary mono/bi-exonic intergenic alignments are documented to be ignored in annotation-free loci"""
     names = set()
     for r in w["reads"]:
-        if r.get("unmapped") or r.get("supplementary"):
+        if r.get("unmapped") or r.get("supplementary") or r["name"].startswith("lowq"):
             continue
         names.add(r["name"])
     return names
@@ -529,6 +546,9 @@ def run(ctx):
                 jobs.append(("valley", off, annotated, mode, ctx.scratch))
             for nbr in ((1,) if quick else (1, 2)):
                 jobs.append(("bridge", nbr, annotated, mode, ctx.scratch))
+            if annotated:
+                for nbr in ((1, 3) if quick else (1, 2, 3, 4)):
+                    jobs.append(("bridge-lowq", nbr, annotated, mode, ctx.scratch))
             for nb in ((129, 130) if quick else (127, 128, 129, 130, 131, 160, 257, 258)):
                 jobs.append(("long-sparse", nb, annotated, mode, ctx.scratch))
             for p in ((3,) if quick else (1, 3, 12)):
